@@ -53,6 +53,16 @@ def build(repo=None):
     def ob(clause, ok, serves, **meta):
         obligations.append({"clause": clause, "kind": "vc", "pc": [], "goal": ok if isinstance(ok, z3.ExprRef) else z3.BoolVal(bool(ok)), "path": [], "meta": {k: (v if isinstance(v, z3.ExprRef) else z3.StringVal(str(v))) for k, v in meta.items()}, "serves": serves})
 
+    # ================================================================== C15: annotation classes are compared by identity
+    # typing.Union (which D[Union[A, B], s] is expanded through) drops members that compare EQUAL, and _make_array_cached keys its
+    # lru_cache on the array-type argument: the union law needs two distinct annotation classes never to compare equal.
+    for mname in ("_MetaAbstractArray", "_MetaAbstractDtype"):
+        mc = mod.cls(mname)
+        own = sorted({b.name for b in mc.body if isinstance(b, (ast.FunctionDef, ast.AsyncFunctionDef))} | {t.id for b in mc.body if isinstance(b, ast.Assign) for t in b.targets if isinstance(t, ast.Name)})
+        bases = [ast.unparse(b) for b in mc.bases]
+        ob(f"C15:union:{mname}-keeps-type's-identity-equality-and-hash(typing.Union-and-cache-keys-never-merge-distinct-annotations)",
+           bases == ["type"] and not ({"__eq__", "__ne__", "__hash__"} & set(own)) and not mc.keywords, ["C15", "C12"], bases=bases, defines=",".join(own))
+
     # ================================================================== C03: tables
     class Cat:
         def __init__(self, dtypes, name):
